@@ -29,7 +29,10 @@ type Sys struct {
 	// implementation (it may run further read operations); it returns violations.
 	Extra func(impl drv.Driver, m *model.Model, trans drv.Op) []Extra
 	// Expand, if set, decides whether the successor of a conforming transition is explored.
-	Expand    func(m *model.Model, depth int) bool
+	Expand func(m *model.Model, depth int) bool
+	// Skip, if set, lets a check declare a transition outside its property (counted, not
+	// compared, not expanded) after seeing the implementation's response.
+	Skip      func(op drv.Op, got drv.Resp) bool
 	MaxStates int
 	MaxDepth  int
 	Deadline  time.Time
@@ -68,6 +71,7 @@ type Stats struct {
 	Nondet       int64
 	Samples      []interface{}
 	SuppressedTr int64 // transitions ending in a known finding (not expanded)
+	Skipped      int64 // transitions a check declared outside its property
 }
 
 // Replay is the artefact written for a violation.
@@ -176,6 +180,10 @@ func Explore(s Sys, run *ev.Run) Stats {
 						omu.Lock()
 						st.Outcomes[op.K+":"+orOK(got.Err)]++
 						omu.Unlock()
+						if s.Skip != nil && s.Skip(op, got) {
+							atomic.AddInt64(&st.Skipped, 1)
+							continue
+						}
 						if d := drv.Compare(op, got, want); d != nil {
 							sig := s.SigOf(op, d, nil)
 							if run.Report(sig, d.String(), Replay{Driver: impl.Name(), System: s.Name, Init: s.Init, History: hist, Op: op, Got: got.Short(), Want: want.Short()}) {
@@ -288,6 +296,7 @@ func (a *Stats) Merge(b Stats) {
 	a.Transitions += b.Transitions
 	a.ObserveOps += b.ObserveOps
 	a.SuppressedTr += b.SuppressedTr
+	a.Skipped += b.Skipped
 	if b.MaxDepth > a.MaxDepth {
 		a.MaxDepth = b.MaxDepth
 	}
